@@ -88,6 +88,39 @@ def new_nonpy(root: str) -> Dict[str, List[str]]:
     return out
 
 
+def raw_new_in_files(prog, files, dirs) -> List[str]:
+    """functions, classes and module/class-level names that the source files of a property define (as written, before
+    normalisation) and the inventory does not list"""
+    if KNOWN is None:
+        return []
+    kf, kn = KNOWN[0], KNOWN[1]
+    kc = KNOWN[3] if len(KNOWN) > 3 else set()
+    out = []
+    for m in prog.modules.values():
+        if not (m.relpath in files or os.path.dirname(m.relpath) in dirs):
+            continue
+        try:
+            tree = ast.parse(m.source)
+        except SyntaxError:
+            continue
+        for st in tree.body:
+            if isinstance(st, (ast.FunctionDef, ast.AsyncFunctionDef)) and "%s.%s" % (m.name, st.name) not in kf:
+                out.append(st.name)
+            elif isinstance(st, ast.ClassDef):
+                if kc and "%s.%s" % (m.name, st.name) not in kc:
+                    out.append(st.name)
+                for s2 in st.body:
+                    if isinstance(s2, (ast.FunctionDef, ast.AsyncFunctionDef)) and "%s.%s.%s" % (m.name, st.name, s2.name) not in kf:
+                        out.append("%s.%s" % (st.name, s2.name))
+                    for t2 in (s2.targets if isinstance(s2, ast.Assign) else [s2.target] if isinstance(s2, ast.AnnAssign) else []):
+                        if isinstance(t2, ast.Name) and "%s.%s.%s" % (m.name, st.name, t2.id) not in kn:
+                            out.append("%s.%s" % (st.name, t2.id))
+            for t2 in (st.targets if isinstance(st, ast.Assign) else [st.target] if isinstance(st, ast.AnnAssign) else []):
+                if isinstance(t2, ast.Name) and "%s.%s" % (m.name, t2.id) not in kn:
+                    out.append(t2.id)
+    return out
+
+
 def new_structure(prog) -> Dict[str, Set[str]]:
     """-> {'funcs': quals of functions/methods not in the inventory, 'classes': quals of classes not in the inventory}"""
     if KNOWN is None:
@@ -165,7 +198,7 @@ def anchor_files(pid: str) -> List[str]:
 def apply(eng, rep) -> None:
     prog = eng.prog
     ns = new_structure(prog)
-    if not ns["funcs"] and not ns["classes"] and not new_nonpy(eng.root):
+    if not ns["funcs"] and not ns["classes"] and not new_nonpy(eng.root) and not rep.errors:
         return
     # violations of shape rules in code that uses new structure
     for o in rep.obls:
@@ -198,6 +231,8 @@ def apply(eng, rep) -> None:
                 # a report on a template / C / C++ source: new definitions in that file or in a file next to it
                 nn = new_nonpy(eng.root)
                 d_ = os.path.dirname(o["file"])
+                if any(fn.split("::")[-1] == x for xs in nn.values() for x in xs):
+                    continue  # the report is ABOUT a new definition: the rule read that code itself, it did not trip over it
                 hits = [x for rel, xs in sorted(nn.items()) if os.path.dirname(rel) == d_ or rel == o["file"] for x in xs if x != "(new file)"] + [rel for rel, xs in sorted(nn.items()) if os.path.dirname(rel) == d_ and "(new file)" in xs]
         if hits:
             o["verdict"] = "undecided"
@@ -219,6 +254,10 @@ def apply(eng, rep) -> None:
         for rel, xs in sorted(nn.items()):
             if rel in files or os.path.dirname(rel) in dirs:
                 near += [x if x != "(new file)" else rel for x in xs]
+        if not near:
+            # structure that the normaliser removed again (helpers, tables, constants) but that left the code in a form the
+            # anchor search does not recognise: look at the files as written
+            near += raw_new_in_files(prog, files, dirs)
         soft = [e for e in rep.errors if not e.startswith("checker crashed") and "does not parse" not in e]
         if near and len(soft) == len(rep.errors):
             for e in rep.errors:
